@@ -117,6 +117,12 @@ func makePlan(f Func, args []spec.V, built []cty.Value, resultVal cty.Value) (*p
 		pl.impl = implPlan{outcome: "panic"}
 	case IUnknown:
 		pl.impl = implPlan{outcome: "value", ret: cty.UnknownVal(pl.Rcty)}
+		if pl.R.K == spec.KDynamic && f.ImplVar%2 == 0 {
+			// the Type callback could not settle on a type but the Impl
+			// answers with a typed unknown (conforming: everything conforms to
+			// the placeholder); a declared refinement applies to it
+			pl.impl.ret = cty.UnknownVal(instantiate(f.Ret).Cty())
+		}
 	case INonConform:
 		w, ok, err := wrongValue(pl.R, f.ImplVar)
 		if err != nil {
